@@ -128,7 +128,8 @@ namespace OP2Utility::Stream
 	protected:
 
 		void ReadImplementation(void* buffer, std::size_t size) override {
-			if (wrappedStream.Position() + size > startingOffset + sliceLength) {
+			// Note: Position() <= sliceLength always holds, so the subtraction cannot wrap (unlike position + size)
+			if (size > sliceLength - Position()) {
 				throw std::runtime_error(
 					"Stream Read request extends beyond the bounds of the stream slice."
 					+ IdentifySource()
